@@ -99,6 +99,27 @@ theorem populate_modes (a : Actor) (now : Nat) : (a.populate now).modes = a.mode
   · rfl
   · exact get_modes a _ _ _ now
 
+theorem maybeAdd_allow (c : Core) (src : Addr) (version : Option Bytes) (ro : Bool) (req : Request) (now : Nat) :
+    (maybeAddNodeFromRequest c src version ro req now).allow = c.allow := by
+  unfold maybeAddNodeFromRequest
+  split
+  · split
+    · unfold addRequester
+      split
+      · split <;> rfl
+      · split <;> rfl
+    · rfl
+  · rfl
+
+theorem verifySelfPing_allow (c : Core) (src : Addr) (req : Request) (now : Nat) :
+    (verifySelfPing c src req now).1.allow = c.allow := by
+  unfold verifySelfPing
+  split
+  · split
+    · split <;> rfl
+    · rfl
+  · rfl
+
 /-- the inputs of one iteration of the actor loop -/
 structure StepIn where
   env : Env
